@@ -177,6 +177,66 @@ Theorem C22_syntax_error_line : forall ls trailer tbl k it,
 Proof. exact error_line_thm. Qed.
 Print Assumptions C22_syntax_error_line.
 
+(* ---- final round: clauses behind the seeds C22c / C22d / C22e ---------------------------------- *)
+
+(* C22d: a numeric entry followed by blanks before its separator (DATA 1 , 2 / DATA 5 :DATA 6): the READ returns the
+   number, the data pointer stands ON the separator (comma, colon, NUL) or at the end of the code, the blanks being
+   skipped, and in front of the remaining entries, so the next READ returns the next entry (every byte code).
+   (The second half is C22_read_number / C22_sequence; that the pointer is on the separator is new.) *)
+Theorem C22_pointer_on_separator : forall numok setvar p cur dp ln it its e tgt,
+  data_ahead p dp ln = (it :: its, e) -> is_str tgt = false -> it_numeric it = true ->
+  numok (it_word it) = Ok tt -> setvar tgt (VNum (it_word it)) = Ok tt ->
+  exists dp', read_one numok setvar p cur dp tgt = Done (VNum (it_word it)) dp' /\
+              seek p dp' = it_rest it /\ at_sep (seek p dp') = true /\
+              (seek p dp' = [] \/ exists c r, seek p dp' = c :: r /\ (c = 0 \/ c = 58 \/ c = 44)) /\
+              data_ahead p dp' (it_line it) = (its, e).
+Proof. exact read_num_on_sep. Qed.
+Print Assumptions C22_pointer_on_separator.
+
+Theorem C22_pointer_on_separator_string : forall numok setvar p cur dp ln it its e tgt,
+  data_ahead p dp ln = (it :: its, e) -> is_str tgt = true -> setvar tgt (VStr (it_str it)) = Ok tt ->
+  exists dp', read_one numok setvar p cur dp tgt = Done (VStr (it_str it)) dp' /\
+              at_sep (seek p dp') = true /\ data_ahead p dp' (it_line it) = (its, e).
+Proof. exact read_str_on_sep. Qed.
+Print Assumptions C22_pointer_on_separator_string.
+
+(* C22e: RESTORE n to a line that does not exist raises Undefined line number and leaves the DATA pointer where it
+   was; in general RESTORE moves the pointer only when the lookup succeeds (restore_stmt = the statement on the
+   interpreter state; C22_restore_undefined had the error only) *)
+Theorem C22_restore_missing_keeps_pointer : forall ls n tbl dp,
+  forallb line_ok ls = true -> ascending (-1) ls = true -> Permutation tbl (table_of ls 0) ->
+  (forall l, In l ls -> l_num l <> n) -> n <> 65536 ->
+  restore_stmt tbl dp (Some n) = (Some data_UNDEFINED_LINE_NUMBER, dp).
+Proof. exact restore_stmt_missing. Qed.
+Print Assumptions C22_restore_missing_keeps_pointer.
+
+Theorem C22_restore_error_keeps_pointer : forall tbl dp arg,
+  match restore_stmt tbl dp arg with
+  | (None, d) => restore tbl arg = Ok d
+  | (Some e, d) => d = dp
+  end.
+Proof. exact restore_stmt_any. Qed.
+Print Assumptions C22_restore_error_keeps_pointer.
+
+(* C22c: an empty statement (nothing or blanks: `10 DATA 1:: DATA 2`, `20 :DATA 5`) in front of statement i of any
+   line of any well-formed program keeps the program well-formed and does not hide anything: READ delivers exactly
+   the entries of the program without it.  (A consequence of C22_program_order, whose grammar contains empty
+   statements - also as the last statement of a line, i.e. a line ending in a colon; stated here explicitly.) *)
+Theorem C22_empty_statement_transparent : forall ls1 l ls2 trailer i bl,
+  forallb line_ok (ls1 ++ l :: ls2) = true -> (length trailer <= 2)%nat ->
+  all_blank bl = true -> (i < length (l_stmts l))%nat ->
+  forallb line_ok (ls1 ++ with_empty l i bl :: ls2) = true /\
+  prog_entries (ls1 ++ with_empty l i bl :: ls2) = prog_entries (ls1 ++ l :: ls2) /\
+  exists its, data_items (enc_prog (ls1 ++ with_empty l i bl :: ls2) trailer) = (its, EndOfData) /\
+              Forall2 item_rel (prog_entries (ls1 ++ l :: ls2)) its.
+Proof. exact empty_statement_thm. Qed.
+Print Assumptions C22_empty_statement_transparent.
+
+(* the empty statement as the last statement of a line (a line ending in a colon) is well-formed *)
+Theorem C22_trailing_colon_ok : forall bl, all_blank bl = true -> stmt_ok true (SOther (map LCh bl) TNone) = true.
+Proof. intros bl. exact (empty_stmt_ok true bl). Qed.
+Print Assumptions C22_trailing_colon_ok.
+
 (* ---- non-vacuity ------------------------------------------------------------------------------ *)
 (* 10 DATA 1 / 20 PRINT / 30 DATA x, "a,b" :DATA5   -- well-formed, ascending; READ A: READ B gives 1, then Syntax
    error in 30 (the witness of defect D22a); RESTORE 30 stands in front of x *)
@@ -187,6 +247,24 @@ Definition ex_l3 := {| l_link := (144, 18); l_lo := 30; l_hi := 0;
                                    SData [] [EPlain [] [53] []]] |}.
 Definition ex_l4 := {| l_link := (150, 18); l_lo := 40; l_hi := 0;
                        l_stmts := [SOther [LCh 65; LCh 231; LTok 15 [58]] TNone; SData [32] [EMixedOpen [] [98] [99; 58]]] |}.
+Definition ex_l5 := {| l_link := (160, 18); l_lo := 50; l_hi := 0;
+                       l_stmts := [SData [] [EPlain [32] [49] []]; SOther [] TNone; SData [32] [EPlain [32] [50] []]] |}.
+Definition ex_l6 := {| l_link := (170, 18); l_lo := 60; l_hi := 0;
+                       l_stmts := [SOther [] TNone; SData [] [EPlain [32] [53] [32]; EPlain [32] [54] []]; SOther [] TNone] |}.
+Example C22_nonvacuous_empty_statements :
+  let ls := [ex_l5; ex_l6] in
+  let p := enc_prog ls [] in
+  let ok := fun _ : list Z => @Ok unit tt in
+  let oks := fun (_ : Z) (_ : val) => @Ok unit tt in
+  forallb line_ok ls = true /\ ascending (-1) ls = true /\
+  enc_body ex_l5 = [132; 32; 49; 58; 58; 32; 132; 32; 50] /\
+  enc_body ex_l6 = [58; 132; 32; 53; 32; 44; 32; 54; 58] /\
+  map (fun it => (it_line it, it_word it)) (fst (data_items p)) = [(50, [49]); (50, [50]); (60, [53]); (60, [54])] /\
+  map outcome_value (fst (read_vars ok oks p 60 0 [3; 3; 3; 3])) =
+    [Some (VNum [49]); Some (VNum [50]); Some (VNum [53]); Some (VNum [54])] /\
+  restore_stmt (table_of ls 0) 21 (Some 55) = (Some data_UNDEFINED_LINE_NUMBER, 21).
+Proof. vm_compute. repeat split; reflexivity. Qed.
+
 Example C22_nonvacuous :
   let ls := [ex_l1; ex_l2; ex_l3; ex_l4] in
   let p := enc_prog ls [] in
